@@ -96,6 +96,17 @@ theorem header_field_readback (a : WArgs) (r : Row) (hr : r ∈ zygoTable) (hp :
     (headerBytes zygoTable zygoWriterSets a).getD (r.lo + i) 0 = (r.payload a (lookupSrc zygoWriterSets r.name)).getD i 0 :=
   C14L.header_field_readback zygoTable zygoWriterSets a header_sizes_match header_fields_disjoint r hr hp i hi
 
+/-- the slice of a written file that a header field occupies is exactly the bytes packed into it (strings included) -/
+theorem header_bytes_roundtrip (a : WArgs) (vals : List Float) (r : Row) (hr : r ∈ zygoTable) (hp : r.isPad = false) :
+    fileSlice (zygoFile zygoTable zygoWriterSets a vals) r.lo r.hi = r.payload a (lookupSrc zygoWriterSets r.name) :=
+  C14L.header_bytes_roundtrip zygoTable zygoWriterSets a vals header_sizes_match header_fields_disjoint r hr hp
+
+/-- every numeric header field (any of the 150 of them, either byte order) unpacks to the value that was packed -/
+theorem header_value_roundtrip (a : WArgs) (vals : List Float) (r : Row) (hr : r ∈ zygoTable) (hp : r.isPad = false)
+    (v : Nat) (hv : v < 256 ^ r.size) (hraw : (lookupSrc zygoWriterSets r.name).raw a r = packNum r.endian r.size v) :
+    r.unpack (zygoFile zygoTable zygoWriterSets a vals) = v :=
+  C14L.header_value_roundtrip zygoTable zygoWriterSets a vals header_sizes_match header_fields_disjoint r hr hp v hv hraw
+
 /-- the row of the generated table called `name` -/
 def rowOf (name : String) : Row :=
   (zygoTable.find? (fun r => r.name == name)).getD ⟨"", .native, 0, .pad, 0, 0, .int 0⟩
